@@ -19,6 +19,7 @@ For each configuration:
              no write-mode open / rename / remove under the working directory, the output path
              does not exist afterwards and the directory is unchanged
 """
+import itertools
 import json
 import os
 import shutil
@@ -28,7 +29,7 @@ import tempfile
 
 import numpy as np
 
-from .. import core
+from .. import core, reach
 
 LEVEL = "fault_enumeration"
 STAGE_AFTER = {  # stage method -> the columns that must already be on disk when it fails
@@ -47,12 +48,23 @@ STAGE_AFTER = {  # stage method -> the columns that must already be on disk when
 KF_NF = "staged:non-finite-header-skipped"
 
 
+_CHILD_NO = itertools.count()
+
+
 def child(spec, timeout=600):
     env = dict(os.environ)
+    os.makedirs(core.WORK, exist_ok=True)
+    rf = os.path.join(core.WORK, f"reach.{os.getpid()}.{next(_CHILD_NO)}.jsonl")
+    env["NSSMON_REACH_FILE"] = rf
     try:
         r = subprocess.run([sys.executable, "-W", "ignore", "-m", "nssmon.c17_child", json.dumps(spec)], capture_output=True, text=True, timeout=timeout, env=env, cwd=spec.get("cwd") or None)
     except subprocess.TimeoutExpired:
         return {"timeout": True}
+    reach.load(rf)
+    try:
+        os.remove(rf)
+    except OSError:
+        pass
     out = {"exit": r.returncode, "stderr": r.stderr[-800:]}
     for line in r.stdout.splitlines():
         if line.startswith("C17CHILD "):
